@@ -1,4 +1,5 @@
 #![allow(dead_code)]
+mod allocprobe;
 mod common;
 mod domains;
 mod props;
@@ -6,6 +7,9 @@ mod refsha;
 mod tree;
 
 use common::*;
+
+#[global_allocator]
+static GLOBAL: allocprobe::Counting = allocprobe::Counting;
 use std::time::Instant;
 
 fn main() {
